@@ -633,6 +633,17 @@ fn probe(id: usize, r: &mut Rng, max: usize) -> String {
             }
             // and admit up to two new ones: above the largest id of D, in a gap, from the pool
             let top = sparse.verts.iter().max().copied().unwrap_or(0);
+            if r.chance(0.4) && sparse.verts.len() >= 2 {
+                // fewer vertices than D, D's largest among the missing ones, and
+                // one id above everything D has: a merge over the two sorted
+                // vertex lists runs off the end of D's
+                sp1 = thin(r, &sparse).induced(|x| x != top);
+                if r.chance(0.4) {
+                    let gone = *r.pick(&sparse.vert_list());
+                    sp1 = sp1.induced(|x| x != gone);
+                }
+                let _ = sp1.verts.insert(top.saturating_add(1 + r.below(3)));
+            } else {
             for _ in 0..r.below(3) {
                 let extra = match r.below(4) {
                     0 | 1 => top.saturating_add(1 + r.below(3)),
@@ -640,6 +651,7 @@ fn probe(id: usize, r: &mut Rng, max: usize) -> String {
                     _ => *r.pick(&gen::SPARSE_POOL),
                 };
                 let _ = sp1.verts.insert(extra);
+            }
             }
         }
         match v {
@@ -1480,7 +1492,11 @@ pub fn case(idx: u64, seed: u64, p: &Params, o: &mut CaseOut) {
         }
         _ => {
             let np = n_probes();
-            let id = (idx as usize) % np;
+            let mut id = (idx as usize) % np;
+            if idx % 13 == 5 {
+                // the pair predicates on two different non-contiguous maps get a larger share
+                id = (TRAV.len() + QUERY.len() + 1) * VARIANTS.len() + 3 * 5 + 2;
+            }
             let mut r = Rng::for_case(1315, seed, idx);
             let d = probe(id, &mut r, max);
             o.comparisons += 1;
